@@ -17,6 +17,8 @@
 From Coq Require Import List NArith ZArith Bool.
 From Coq.Strings Require Import Byte.
 From SP Require Import Bytes Consts Params Msgpack Errors BaseX Encodings Packets Armor ArmorProofs ClassifyProofs.
+From SP Require Import GoLang GoAst GoAstProofs.
+From Coq Require String.
 Import ListNotations.
 
 Theorem C16_binary_prefix_stable (maj mi typ : Z) (fields : list mval) (rest : bytes) (k : nat) :
@@ -64,6 +66,15 @@ Theorem C16_armored_prefix_stable_header (typ : Z) (payload brand : bytes) (k : 
   armored_prefix (firstn k text) = ([], ClsShort).
 Proof. exact (armored_prefix_stable_header typ payload brand k). Qed.
 
+(* SOURCE TIE: the term f_saltpack_IsSaltpackBinarySlice is generated on every run from the Go syntax tree of
+   /repo's IsSaltpackBinarySlice (harness/cmd/gen/goast.go); under the Go semantics of model/GoLang.v it computes
+   exactly what the model says, for ALL arguments.  An edit of that function in /repo changes
+   the term and this theorem has to be re-established. *)
+Theorem C16_source_IsSaltpackBinarySlice (b : bytes) :
+  g_classification (run_func ext_decode f_saltpack_IsSaltpackBinarySlice [VBytes b]) = binary_slice b.
+Proof. exact (go_IsSaltpackBinarySlice b). Qed.
+
+Print Assumptions C16_source_IsSaltpackBinarySlice.
 Print Assumptions C16_binary_prefix_stable.
 Print Assumptions C16_binary_slice_sound.
 Print Assumptions C16_armored_prefix_sound.
